@@ -15,7 +15,8 @@ fn res(r: Result<Option<Vec<u8>>, ()>) -> Value {
 pub fn run(case: &Value, em: &mut Emitter) {
     let bytes: Vec<u8> = case["bytes"].as_array().unwrap().iter().map(|b| b.as_u64().unwrap() as u8).collect();
     let nslots = case["nslots"].as_u64().unwrap_or(3);
-    let ids: Vec<u64> = (0..nslots + 2).collect();
+    let mut ids: Vec<u64> = (0..nslots + 2).collect();
+    ids.push(2147483647);          // stand-in: an id far beyond any table (the call uses usize::MAX / 8 + 1, 1 << 61, usize::MAX in turn)
     let out = guard(|| {
         let is = is_ram_bundle_slice(&bytes);
         match RamBundle::parse_indexed_from_slice(&bytes) {
@@ -23,7 +24,11 @@ pub fn run(case: &Value, em: &mut Emitter) {
             Ok(b) => {
                 let count = b.module_count();
                 let startup = res(b.startup_code().map(|s| Some(s.to_vec())).map_err(|_| ()));
-                let gets: Vec<Value> = ids.iter().map(|&i| res(b.get_module(i as usize).map(|o| o.map(|m| m.data().to_vec())).map_err(|_| ()))).collect();
+                let huge = [usize::MAX / 8 + 1, 1usize << 61, usize::MAX, 1usize << 32];
+                let gets: Vec<Value> = ids.iter().map(|&i| {
+                    let id = if i == 2147483647 { huge[bytes.len() % huge.len()] } else { i as usize };
+                    res(b.get_module(id).map(|o| o.map(|m| m.data().to_vec())).map_err(|_| ()))
+                }).collect();
                 // the iterator, bounded: ids below 64 only (a huge count would otherwise loop 2^32 times)
                 let mut iter = vec![];
                 let mut expect_id = 0usize;
